@@ -270,7 +270,10 @@ def run(ctx):
             dirs = sorted(p for p, t in w0.items() if t[0] == "d")
             cand = [["remove", f] for f in files[:3]] + [["removedir", d] for d in dirs[:2]] + [["removetree", d] for d in dirs[:2]] + \
                    [["create", "/ro new.txt"], ["makedir", "/ro new dir"], ["create", files[0], 1] if files else ["create", "/x", 1],
-                    ["setinfo", files[0] if files else "/x", 1704067200, 1704067300, None, (2024, 1, 1, 0, 0, 0), (2024, 1, 1, 0, 1, 40), None]]
+                    ["setinfo", files[0] if files else "/x", 1704067200, 1704067300, None, (2024, 1, 1, 0, 0, 0), (2024, 1, 1, 0, 1, 40), None],
+                    # through handles: re-opening a file of several clusters for writing, shrinking it through r+ (C09-m9: the chain was cut in
+                    # memory before the guarded call raised)
+                    ["open", "m1", "/MULTI.BIN", "w"], ["open", "m2", "/MULTI.BIN", "r+"], ["truncate", "m2", 700], ["write", "m2", "4d4d"], ["hclose", "m2"]]
             for k, op in enumerate(cand):
                 ctx.evaluations += 1
                 clk.t = clock_tuple(k + 1)
